@@ -63,6 +63,9 @@
 (*             that "k addresses fail and succeed, then a fresh address fails" is generated          *)
 (*             (EmitActs "inherit": queries of an address that would be over PermAt had it           *)
 (*             inherited the released counts).                                                        *)
+(*   inh[ip]   relTot at the moment the address's current failure record was created: what a       *)
+(*             record built from a released one could wrongly carry over.  It makes the ORDER         *)
+(*             "others release, then this address fails for the first time" a state of its own.       *)
 (* Violations are accumulated in `viol`, deviations of the code in `dev`; the as-is               *)
 (* configurations (Fixed = {}) check "violation => a listed deviation happened", the repaired     *)
 (* design (Fixed = {"unban", "unbl", "order", "shadow"}) checks viol = {} and dev = {} outright:  *)
@@ -101,12 +104,13 @@ VARIABLES clock,
           bucket,                \* token bucket of anonymous registrations
           pc, hs,                \* handshake processes (goroutines inside HandleHandshake)
           pf, ptot, oblig, allow, blob, adm, viol, dev,   \* ghosts
+          inh,                   \* ghost: relTot at the moment the address's current failure record was created
           relTot,                \* ghost: failures counted in records that were released since (success, emptied by a clean-up)
           hist
 vars == <<clock, fails, total, ban, pendUnban, cpend, bl, wl, pendUnbl, bucket, pc, hs,
-          pf, ptot, relTot, oblig, allow, blob, adm, viol, dev, hist>>
+          pf, ptot, relTot, inh, oblig, allow, blob, adm, viol, dev, hist>>
 view == <<clock, fails, total, ban, pendUnban, cpend, bl, wl, pendUnbl, bucket, pc, hs,
-          pf, ptot, relTot, oblig, allow, blob, adm, viol, dev>>
+          pf, ptot, relTot, inh, oblig, allow, blob, adm, viol, dev>>
 
 Max2(a, b) == IF a >= b THEN a ELSE b
 Min2(a, b) == IF a <= b THEN a ELSE b
@@ -151,7 +155,7 @@ Init == /\ clock = 0
         /\ bl = [i \in IPs |-> NoEntries] /\ wl = [i \in IPs |-> NoWl] /\ pendUnbl = [i \in IPs |-> 0]
         /\ bucket = [i \in IPs |-> NoBucket]
         /\ pc = [p \in Procs |-> "idle"] /\ hs = [p \in Procs |-> Idle] 
-        /\ pf = [i \in IPs |-> <<>>] /\ ptot = [i \in IPs |-> 0] /\ relTot = 0
+        /\ pf = [i \in IPs |-> <<>>] /\ ptot = [i \in IPs |-> 0] /\ relTot = 0 /\ inh = [i \in IPs |-> 0]
         /\ oblig = [i \in IPs |-> None] /\ allow = [i \in IPs |-> None] /\ blob = [i \in IPs |-> NoEntries]
         /\ adm = [i \in IPs |-> <<>>] /\ viol = {} /\ dev = {}
         /\ hist = <<>>
@@ -168,7 +172,7 @@ Out == IF EmitActs = {} THEN TRUE
                \/ ("end" \in EmitActs /\ Len(hist') = MaxHist)
                \/ ("inherit" \in EmitActs /\ hist'[Len(hist')].a = "Query"    \* a query of an address that would be over PermAt
                      /\ LET i == hist'[Len(hist')].ip                          \* had its record inherited the released counts
-                        IN total[i] > 0 /\ ban[i].k = "none" /\ total[i] + relTot >= PermAt)    \* (and is not banned)
+                        IN total[i] > 0 /\ ban[i].k = "none" /\ total[i] + inh[i] >= PermAt)     \* (and is not banned)
                \/ ("fault" \in EmitActs /\ "fault" \in DOMAIN hist'[Len(hist')])     \* a step made under a storage fault
                \/ ("mixed" \in EmitActs /\ hist'[Len(hist')].a = "Query"      \* a query while an expired and a live entry coexist
                      /\ \E i \in IPs : (\E f \in Forms : Expired(bl[i][f])) /\ (\E g \in Forms : Live(bl[i][g])))
@@ -233,7 +237,7 @@ HsGate(p, i, kind) ==
            ELSE pc' = pc /\ hs' = hs
         /\ Log([a |-> "Hs", p |-> p, ip |-> i, kind |-> kind, res |-> res])
   /\ dev' = dev \cup DevShadow(i)
-  /\ UNCHANGED <<cpend, clock, fails, total, ban, bl, wl, pf, ptot, relTot, oblig, allow, blob>>
+  /\ UNCHANGED <<cpend, clock, fails, total, ban, bl, wl, pf, ptot, relTot, inh, oblig, allow, blob>>
 
 \* what the statement demands after a failing handshake that saw cnt failures in the window / tot in total
 Demand(cnt, tot, rc) == IF tot >= PermAt THEN Perm ELSE IF cnt >= Threshold THEN Temp(rc + Ban) ELSE None
@@ -252,6 +256,7 @@ HsCred(p) ==
           IN /\ total[i] < MaxTotal
              /\ fails' = [fails EXCEPT ![i] = fl] /\ total' = [total EXCEPT ![i] = tot]
              /\ pf' = [pf EXCEPT ![i] = npf] /\ ptot' = [ptot EXCEPT ![i] = ntot] /\ relTot' = relTot
+             /\ inh' = IF total[i] = 0 THEN [inh EXCEPT ![i] = relTot] ELSE inh       \* a new record is created
              /\ IF dec = "none"
                 THEN /\ pc' = [pc EXCEPT ![p] = "idle"] /\ hs' = [hs EXCEPT ![p] = Idle]
                      /\ oblig' = [oblig EXCEPT ![i] = Stronger(@, Demand(cnt, ntot, clock))]   \* returns without banning
@@ -264,6 +269,7 @@ HsCred(p) ==
           /\ fails' = [fails EXCEPT ![i] = <<>>] /\ total' = [total EXCEPT ![i] = 0]
           /\ pf' = [pf EXCEPT ![i] = <<>>] /\ ptot' = [ptot EXCEPT ![i] = 0]
           /\ relTot' = Min2(relTot + total[i], PermAt)          \* the record (if any) is released
+          /\ inh' = [inh EXCEPT ![i] = 0]
           /\ pc' = [pc EXCEPT ![p] = "idle"] /\ hs' = [hs EXCEPT ![p] = Idle]
           /\ UNCHANGED <<cpend, oblig>>
           /\ Log([a |-> "Cred", p |-> p, res |-> "ok"])
@@ -281,7 +287,7 @@ HsBan(p) ==   \* banIP under banMu
         /\ oblig' = [oblig EXCEPT ![i] = Stronger(@, Demand(hs[p].pcnt, hs[p].ptot, hs[p].rc))]
         /\ pc' = [pc EXCEPT ![p] = "idle"] /\ hs' = [hs EXCEPT ![p] = Idle]
         /\ Log([a |-> "Ban", p |-> p, res |-> "fail"])
-  /\ UNCHANGED <<clock, fails, total, pendUnban, cpend, bl, wl, pendUnbl, bucket, pf, ptot, relTot, blob, adm, viol>>
+  /\ UNCHANGED <<clock, fails, total, pendUnban, cpend, bl, wl, pendUnbl, bucket, pf, ptot, relTot, inh, blob, adm, viol>>
 
 \* ---- observation ----------------------------------------------------------------------------
 Query(i) ==
@@ -291,7 +297,7 @@ Query(i) ==
   /\ viol' = viol \cup Judge(i, IF BlRefuses(i) THEN "yes" ELSE "no", IF BanRefuses(i) THEN "yes" ELSE "no")
   /\ Log([a |-> "Query", ip |-> i, bl |-> BlRefuses(i), ban |-> BanRefuses(i)])
   /\ dev' = dev \cup DevShadow(i)
-  /\ UNCHANGED <<cpend, clock, fails, total, ban, bl, wl, bucket, pc, hs, pf, ptot, relTot, oblig, allow, blob, adm>>
+  /\ UNCHANGED <<cpend, clock, fails, total, ban, bl, wl, bucket, pc, hs, pf, ptot, relTot, inh, oblig, allow, blob, adm>>
 
 \* ---- the asynchronous removals -------------------------------------------------------------
 AsyncUnban(i) ==
@@ -305,7 +311,7 @@ AsyncUnban(i) ==
           /\ ban' = [ban EXCEPT ![i] = None]
           /\ dev' = IF Live(ban[i]) THEN dev \cup {"unbanLive"} ELSE dev
   /\ Log([a |-> "Unban", ip |-> i, live |-> Live(ban[i])])
-  /\ UNCHANGED <<cpend, clock, fails, total, bl, wl, pendUnbl, bucket, pc, hs, pf, ptot, relTot, oblig, allow, blob, adm, viol>>
+  /\ UNCHANGED <<cpend, clock, fails, total, bl, wl, pendUnbl, bucket, pc, hs, pf, ptot, relTot, inh, oblig, allow, blob, adm, viol>>
 
 AsyncUnbl(i) ==
   /\ "Unbl" \in Acts /\ Free /\ pendUnbl[i] > 0
@@ -316,7 +322,7 @@ AsyncUnbl(i) ==
      ELSE /\ bl' = [bl EXCEPT ![i].ip = None]
           /\ dev' = IF Live(bl[i].ip) THEN dev \cup {"unblLive"} ELSE dev
   /\ Log([a |-> "Unbl", ip |-> i, live |-> Live(bl[i].ip)])
-  /\ UNCHANGED <<clock, fails, total, ban, pendUnban, cpend, wl, bucket, pc, hs, pf, ptot, relTot, oblig, allow, blob, adm, viol>>
+  /\ UNCHANGED <<clock, fails, total, ban, pendUnban, cpend, wl, bucket, pc, hs, pf, ptot, relTot, inh, oblig, allow, blob, adm, viol>>
 
 \* ---- periodic clean-ups ---------------------------------------------------------------------
 CleanF ==   \* cleanup(), failure records (`mu` section)
@@ -325,6 +331,7 @@ CleanF ==   \* cleanup(), failure records (`mu` section)
   /\ total' = [i \in IPs |-> IF InWin(fails[i]) = <<>> THEN 0 ELSE total[i]]      \* an emptied record is deleted
   /\ ptot'  = [i \in IPs |-> IF InWin(pf[i]) = <<>> THEN 0 ELSE ptot[i]]
   /\ relTot' = Min2(relTot + Released, PermAt)
+  /\ inh' = [i \in IPs |-> IF InWin(fails[i]) = <<>> THEN 0 ELSE inh[i]]
   /\ Log([a |-> "CleanF"])
   /\ UNCHANGED <<clock, ban, pendUnban, cpend, bl, wl, pendUnbl, bucket, pc, hs, pf, oblig, allow, blob, adm, viol, dev>>
 
@@ -332,7 +339,7 @@ CleanB ==   \* cleanup(), expired bans (`banMu` section): permanent and unexpire
   /\ "CleanB" \in Acts /\ Free
   /\ ban' = [i \in IPs |-> IF Expired(ban[i]) THEN None ELSE ban[i]]
   /\ Log([a |-> "CleanB"])
-  /\ UNCHANGED <<clock, fails, total, pendUnban, cpend, bl, wl, pendUnbl, bucket, pc, hs, pf, ptot, relTot, oblig, allow, blob, adm, viol, dev>>
+  /\ UNCHANGED <<clock, fails, total, pendUnban, cpend, bl, wl, pendUnbl, bucket, pc, hs, pf, ptot, relTot, inh, oblig, allow, blob, adm, viol, dev>>
 
 Clean ==    \* one complete cleanup() run: both sections back to back (what the sequential driver can call)
   /\ "Clean" \in Acts /\ Free
@@ -340,6 +347,7 @@ Clean ==    \* one complete cleanup() run: both sections back to back (what the 
   /\ total' = [i \in IPs |-> IF InWin(fails[i]) = <<>> THEN 0 ELSE total[i]]
   /\ ptot'  = [i \in IPs |-> IF InWin(pf[i]) = <<>> THEN 0 ELSE ptot[i]]
   /\ relTot' = Min2(relTot + Released, PermAt)
+  /\ inh' = [i \in IPs |-> IF InWin(fails[i]) = <<>> THEN 0 ELSE inh[i]]
   /\ ban' = [i \in IPs |-> IF Expired(ban[i]) THEN None ELSE ban[i]]
   /\ Log([a |-> "Clean"])
   /\ UNCHANGED <<clock, pendUnban, cpend, bl, wl, pendUnbl, bucket, pc, hs, pf, oblig, allow, blob, adm, viol, dev>>
@@ -348,21 +356,21 @@ CleanL ==   \* IPManager.cleanup()
   /\ "CleanL" \in Acts /\ Free
   /\ bl' = [i \in IPs |-> [f \in Forms |-> IF Expired(bl[i][f]) THEN None ELSE bl[i][f]]]
   /\ Log([a |-> "CleanL"])
-  /\ UNCHANGED <<clock, fails, total, ban, pendUnban, cpend, wl, pendUnbl, bucket, pc, hs, pf, ptot, relTot, oblig, allow, blob, adm, viol, dev>>
+  /\ UNCHANGED <<clock, fails, total, ban, pendUnban, cpend, wl, pendUnbl, bucket, pc, hs, pf, ptot, relTot, inh, oblig, allow, blob, adm, viol, dev>>
 
 \* ---- operator actions -----------------------------------------------------------------------
 MUnban(i) ==   \* UnbanIP called by an operator: lifts the ban and, legitimately, the obligation
   /\ "MUnban" \in Acts /\ Free /\ ban[i].k # "none"
   /\ ban' = [ban EXCEPT ![i] = None] /\ oblig' = [oblig EXCEPT ![i] = None]
   /\ Log([a |-> "MUnban", ip |-> i])
-  /\ UNCHANGED <<clock, fails, total, pendUnban, cpend, bl, wl, pendUnbl, bucket, pc, hs, pf, ptot, relTot, allow, blob, adm, viol, dev>>
+  /\ UNCHANGED <<clock, fails, total, pendUnban, cpend, bl, wl, pendUnbl, bucket, pc, hs, pf, ptot, relTot, inh, allow, blob, adm, viol, dev>>
 
 Blk(i, kind, f) ==   \* AddToBlacklist(entry, duration | 0): the latest order for an entry replaces the previous one
   /\ kind \in Acts /\ Free
   /\ LET e == IF kind = "BlkP" THEN Perm ELSE Temp(clock + BlDur)
      IN bl' = [bl EXCEPT ![i][f] = e] /\ blob' = [blob EXCEPT ![i][f] = e]
   /\ Log([a |-> kind, ip |-> i, form |-> f])
-  /\ UNCHANGED <<clock, fails, total, ban, pendUnban, cpend, wl, pendUnbl, bucket, pc, hs, pf, ptot, relTot, oblig, allow, adm, viol, dev>>
+  /\ UNCHANGED <<clock, fails, total, ban, pendUnban, cpend, wl, pendUnbl, bucket, pc, hs, pf, ptot, relTot, inh, oblig, allow, adm, viol, dev>>
 
 \* the weaker of two orders: what is demanded when it is unknown which of them is in force
 Meet(a, b) == IF a.k = "none" \/ b.k = "none" THEN None
@@ -378,30 +386,30 @@ BlkF(i, kind, f) ==   \* AddToBlacklist while the storage write fails (Set / App
   /\ LET e == IF kind = "BlkP" THEN Perm ELSE Temp(clock + BlDur)
      IN bl' = [bl EXCEPT ![i][f] = e] /\ blob' = [blob EXCEPT ![i][f] = Meet(@, e)]
   /\ Log([a |-> kind, ip |-> i, form |-> f, fault |-> TRUE])
-  /\ UNCHANGED <<clock, fails, total, ban, pendUnban, cpend, wl, pendUnbl, bucket, pc, hs, pf, ptot, relTot, oblig, allow, adm, viol, dev>>
+  /\ UNCHANGED <<clock, fails, total, ban, pendUnban, cpend, wl, pendUnbl, bucket, pc, hs, pf, ptot, relTot, inh, oblig, allow, adm, viol, dev>>
 
 MUnbl(i, f) ==   \* RemoveFromBlacklist(entry) called by an operator
   /\ "MUnbl" \in Acts /\ Free /\ bl[i][f].k # "none"
   /\ bl' = [bl EXCEPT ![i][f] = None] /\ blob' = [blob EXCEPT ![i][f] = None]
   /\ Log([a |-> "MUnbl", ip |-> i, form |-> f])
-  /\ UNCHANGED <<clock, fails, total, ban, pendUnban, cpend, wl, pendUnbl, bucket, pc, hs, pf, ptot, relTot, oblig, allow, adm, viol, dev>>
+  /\ UNCHANGED <<clock, fails, total, ban, pendUnban, cpend, wl, pendUnbl, bucket, pc, hs, pf, ptot, relTot, inh, oblig, allow, adm, viol, dev>>
 
 SetWl(i, on, f) ==
   /\ (IF on THEN "Wl" ELSE "UnWl") \in Acts /\ Free /\ wl[i][f] # on
   /\ wl' = [wl EXCEPT ![i][f] = on]
   /\ Log([a |-> IF on THEN "Wl" ELSE "UnWl", ip |-> i, form |-> f])
-  /\ UNCHANGED <<clock, fails, total, ban, pendUnban, cpend, bl, pendUnbl, bucket, pc, hs, pf, ptot, relTot, oblig, allow, blob, adm, viol, dev>>
+  /\ UNCHANGED <<clock, fails, total, ban, pendUnban, cpend, bl, pendUnbl, bucket, pc, hs, pf, ptot, relTot, inh, oblig, allow, blob, adm, viol, dev>>
 
 Other(i, kind) ==   \* an entry that does not cover the address (range elsewhere): nothing changes for it
   /\ kind \in {"BlkO", "WlO"} /\ kind \in Acts /\ Free
   /\ Log([a |-> IF kind = "BlkO" THEN "Blk" ELSE "Wl", ip |-> i, form |-> "other"])
-  /\ UNCHANGED <<clock, fails, total, ban, pendUnban, cpend, bl, wl, pendUnbl, bucket, pc, hs, pf, ptot, relTot, oblig, allow, blob, adm, viol, dev>>
+  /\ UNCHANGED <<clock, fails, total, ban, pendUnban, cpend, bl, wl, pendUnbl, bucket, pc, hs, pf, ptot, relTot, inh, oblig, allow, blob, adm, viol, dev>>
 
 Reload ==   \* restart: a fresh IPManager loads the lists from storage (= memory minus expired entries)
   /\ "Reload" \in Acts /\ Free /\ \A i \in IPs : pendUnbl[i] = 0
   /\ bl' = [i \in IPs |-> [f \in Forms |-> IF Live(bl[i][f]) THEN bl[i][f] ELSE None]]
   /\ Log([a |-> "Reload"])
-  /\ UNCHANGED <<clock, fails, total, ban, pendUnban, cpend, wl, pendUnbl, bucket, pc, hs, pf, ptot, relTot, oblig, allow, blob, adm, viol, dev>>
+  /\ UNCHANGED <<clock, fails, total, ban, pendUnban, cpend, wl, pendUnbl, bucket, pc, hs, pf, ptot, relTot, inh, oblig, allow, blob, adm, viol, dev>>
 
 \* ---- rate-limiter histories ------------------------------------------------------------------
 IdleTicks == (Burst * 1000 + Refill - 1) \div Refill        \* a whole refill period: burst / rate
@@ -412,7 +420,7 @@ IdleFor ==
   /\ clock' = clock + IdleTicks
   /\ pf' = [i \in IPs |-> SelectSeq(pf[i], LAMBDA t : clock + IdleTicks - t < Win)]
   /\ Log([a |-> "Idle", n |-> IdleTicks])
-  /\ UNCHANGED <<fails, total, ban, pendUnban, cpend, bl, wl, pendUnbl, bucket, pc, hs, ptot, relTot, oblig, allow, blob, adm, viol, dev>>
+  /\ UNCHANGED <<fails, total, ban, pendUnban, cpend, bl, wl, pendUnbl, bucket, pc, hs, ptot, relTot, inh, oblig, allow, blob, adm, viol, dev>>
 
 ConcK == Burst + 2
 ConcFirst(i) ==   \* ConcK AllowIP calls AT THE SAME TIME from an address that has no bucket yet
@@ -424,7 +432,7 @@ ConcFirst(i) ==   \* ConcK AllowIP calls AT THE SAME TIME from an address that h
   /\ bucket' = [bucket EXCEPT ![i] = [has |-> TRUE, tok |-> (Burst - Min2(Burst, ConcK)) * 1000, last |-> clock]]
   /\ adm' = [adm EXCEPT ![i] = @ \o [x \in 1..Min2(Burst, ConcK) |-> clock]]
   /\ Log([a |-> "ConcFirst", ip |-> i, n |-> ConcK, adm |-> Min2(Burst, ConcK)])
-  /\ UNCHANGED <<clock, fails, total, ban, pendUnban, cpend, bl, wl, pendUnbl, pc, hs, pf, ptot, relTot, oblig, allow, blob, viol, dev>>
+  /\ UNCHANGED <<clock, fails, total, ban, pendUnban, cpend, bl, wl, pendUnbl, pc, hs, pf, ptot, relTot, inh, oblig, allow, blob, viol, dev>>
 
 Flood(i) ==   \* FloodN AllowIP calls back to back (straight at the limiter)
   /\ "Flood" \in Acts /\ Free
@@ -434,7 +442,7 @@ Flood(i) ==   \* FloodN AllowIP calls back to back (straight at the limiter)
      IN /\ bucket' = [bucket EXCEPT ![i] = [has |-> TRUE, tok |-> cur - k * 1000, last |-> clock]]
         /\ adm' = [adm EXCEPT ![i] = @ \o [x \in 1..k |-> clock]]
         /\ Log([a |-> "Flood", ip |-> i, n |-> FloodN, adm |-> k])
-  /\ UNCHANGED <<clock, fails, total, ban, pendUnban, cpend, bl, wl, pendUnbl, pc, hs, pf, ptot, relTot, oblig, allow, blob, viol, dev>>
+  /\ UNCHANGED <<clock, fails, total, ban, pendUnban, cpend, bl, wl, pendUnbl, pc, hs, pf, ptot, relTot, inh, oblig, allow, blob, viol, dev>>
 
 FloodHs(i, kind) ==   \* FloodN registration handshakes back to back through HandleHandshake (gates, limiter, RecordSuccess)
   /\ "FloodHs" \in Acts /\ kind \in Acts /\ kind \in RegKinds /\ Quiet
@@ -452,7 +460,8 @@ FloodHs(i, kind) ==   \* FloodN registration handshakes back to back through Han
            THEN /\ fails' = [fails EXCEPT ![i] = <<>>] /\ total' = [total EXCEPT ![i] = 0]
                 /\ pf' = [pf EXCEPT ![i] = <<>>] /\ ptot' = [ptot EXCEPT ![i] = 0]
                 /\ relTot' = Min2(relTot + total[i], PermAt)
-           ELSE UNCHANGED <<fails, total, pf, ptot, relTot>>
+                /\ inh' = [inh EXCEPT ![i] = 0]
+           ELSE UNCHANGED <<fails, total, pf, ptot, relTot, inh>>
         /\ Log([a |-> "FloodHs", ip |-> i, kind |-> kind, n |-> FloodN, adm |-> k,
                 res |-> IF blRef THEN "bl" ELSE IF banRef THEN "ban" ELSE "pass"])
   /\ UNCHANGED <<clock, ban, pendUnban, cpend, bl, wl, pendUnbl, pc, hs, oblig, allow, blob, dev>>
@@ -469,6 +478,7 @@ CleanScan ==
   /\ total' = [i \in IPs |-> IF InWin(fails[i]) = <<>> THEN 0 ELSE total[i]]
   /\ ptot'  = [i \in IPs |-> IF InWin(pf[i]) = <<>> THEN 0 ELSE ptot[i]]
   /\ relTot' = Min2(relTot + Released, PermAt)
+  /\ inh' = [i \in IPs |-> IF InWin(fails[i]) = <<>> THEN 0 ELSE inh[i]]
   /\ cpend' = [i \in IPs |-> Expired(ban[i])]
   /\ Log([a |-> "CleanScan", n |-> Cardinality({i \in IPs : Expired(ban[i])})])
   /\ UNCHANGED <<clock, ban, pendUnban, bl, wl, pendUnbl, bucket, pc, hs, pf, oblig, allow, blob, adm, viol, dev>>
@@ -479,14 +489,14 @@ CleanDel(i) ==
   /\ ban' = [ban EXCEPT ![i] = None]
   /\ dev' = IF Live(ban[i]) THEN dev \cup {"cleanLive"} ELSE dev
   /\ Log([a |-> "CleanDel", ip |-> i, live |-> Live(ban[i])])
-  /\ UNCHANGED <<clock, fails, total, pendUnban, bl, wl, pendUnbl, bucket, pc, hs, pf, ptot, relTot, oblig, allow, blob, adm, viol>>
+  /\ UNCHANGED <<clock, fails, total, pendUnban, bl, wl, pendUnbl, bucket, pc, hs, pf, ptot, relTot, inh, oblig, allow, blob, adm, viol>>
 
 Tick ==
   /\ "Tick" \in Acts /\ Free /\ clock < MaxClock
   /\ clock' = clock + 1
   /\ pf' = [i \in IPs |-> SelectSeq(pf[i], LAMBDA t : clock + 1 - t < Win)]
   /\ Log([a |-> "Tick"])
-  /\ UNCHANGED <<fails, total, ban, pendUnban, cpend, bl, wl, pendUnbl, bucket, pc, hs, ptot, relTot, oblig, allow, blob, adm, viol, dev>>
+  /\ UNCHANGED <<fails, total, ban, pendUnban, cpend, bl, wl, pendUnbl, bucket, pc, hs, ptot, relTot, inh, oblig, allow, blob, adm, viol, dev>>
 
 Step == \/ \E p \in Procs : \/ \E i \in IPs, k \in Kinds : HsGate(p, i, k)
                             \/ HsCred(p) \/ HsBan(p)
